@@ -263,6 +263,9 @@ func (m *Machine) callValue(s *State, f *Frame, x *ssa.Call, cc *ssa.CallCommon,
 			m.panicState(s, "nil func call", f, f.blk.Instrs[f.idx-1])
 			return nil
 		}
+		if x != nil && len(fv.free) == 0 && m.summarize[fv.fn.String()] {
+			return m.summarizedCall(s, f, x, fv.fn, args)
+		}
 		m.pushFrame(s, fv.fn, args, fv.free, dest)
 		return nil
 	}
